@@ -11,11 +11,13 @@ and ``PmappingDataframe`` (constructor and ``make_pareto``), float64 and float32
 Bound (quick): zero tolerance - every table with <= 2 rows over 2-value alphabets x 9
 variant/entry combinations (6 column-set variants through makepareto/f64, makepareto/f32,
 PmappingDataframe constructor/f32, PmappingDataframe.make_pareto/f64), every 3-row table over
-2-value alphabets x 3 combinations, every 2-row table over 3-value alphabets x 2 entries.
+2-value alphabets and every 2-row table over 3-value alphabets x 2 entries (makepareto/f64,
+constructor/f32).
 Tolerance grid {0,.01,.1,.5}^3 (objective, relative-resource, absolute-resource): every 2-row
 table over value ladders placed just inside / just outside the (1+t) buckets of each
 tolerance, 2-row tables with differing tile shapes (both entry points), 3-row tables over
-2-value ladders.  Thorough: <= 4 rows, 9-value ladders, 3-row 3-value ladders, both entries.
+2-value ladders.  Thorough: <= 3 rows x 9 combinations, 4 rows x 2 entries, 9-value ladders,
+3-row 3-value ladders, both entry points on the 3-row tolerance families.
 
 Oracle: mc/ref/pareto_table.py (built on the O(n^2) dominance of mc/ref/pareto.py).
 Zero tolerance: no strictly dominated row (same fused-loop tile shape) is kept and every
@@ -198,7 +200,6 @@ PLANS = {
     # name -> [(entry point, column-set variant, float dtype)]
     "Z": [("makepareto", v, "f64") for v in VARIANTS] + [
         ("makepareto", "full", "f32"), ("pdf-ctor", "full", "f32"), ("pdf-make_pareto", "full", "f64")],
-    "Zm": [("makepareto", "full", "f64"), ("makepareto", "cobj", "f64"), ("pdf-ctor", "full", "f32")],
     "Zs": [("makepareto", "full", "f64"), ("pdf-ctor", "full", "f32")],
     "T": [("makepareto", "full", "f64")],
     "Tb": [("makepareto", "full", "f64"), ("pdf-make_pareto", "full", "f32")],
@@ -288,11 +289,12 @@ def run(ctx):
     A2 = ([1, 2], [1, 2], [0.25, 0.5], [1, 2])
     A3 = ([1, 2, 4], [1, 2, 4], [0.25, 0.5, 1], [1, 2, 4])
     A3q = ([1, 2, 4], [1, 2, 4], [0.25, 0.5, 1], [1, 2])
-    fam = {"Z-2val": (table_tree([0, 1, 2] if q else [0, 1, 2, 3, 4], A2), "Z"),
+    fam = {"Z-2val": (table_tree([0, 1, 2] if q else [0, 1, 2, 3], A2), "Z"),
            "Z-3val-n2": (table_tree([2], A3q if q else A3), "Zs" if q else "Z")}
     if q:
-        fam["Z-2val-n3"] = (table_tree([3], A2), "Zm")
+        fam["Z-2val-n3"] = (table_tree([3], A2), "Zs")
     else:
+        fam["Z-2val-n4"] = (table_tree([4], A2), "Zs")
         fam["Z-3val-n3"] = (table_tree([3], ([1, 2, 4], [1, 2, 4], [0.25, 0.5], [1, 2])), "Zs")
     tree, body = union(fam)
     ctx.explore("zero-tolerance", tree, body, shard_depth=4, distinct_by_construction=True)
@@ -316,8 +318,8 @@ def run(ctx):
     tree, body = union(fam)
     ctx.explore("tolerance-grid", tree, body, shard_depth=4, distinct_by_construction=True)
     ctx.bound(Z="rows<=%s over 2-value alphabets x %d variant/entry combinations%s; rows=2 over 3-value alphabets%s"
-                % (2 if q else 4, len(PLANS["Z"]), " and rows=3 x 3 combinations" if q else "",
-                   " (tile shape 2-valued, 2 entries)" if q else "; rows=3 over 3x3x2x2 (2 entries)"),
+                % (2 if q else 3, len(PLANS["Z"]), " and rows=3 x 2 entries" if q else "",
+                   " (tile shape 2-valued, 2 entries)" if q else "; rows=4 over 2-value alphabets and rows=3 over 3x3x2x2 (2 entries)"),
               variants=VARIANTS, T_rows2={"energy": E2, "latency": L2, "reservation": R2},
               T_rows3=[list(a) for a in T3],
               tolerance_grid="{0,0.01,0.1,0.5}^3 (objective, relative resource, absolute resource)",
